@@ -223,6 +223,33 @@ def _run(ctx):
         ctx.inst("C20.R3", "stale/" + crate, len(good) == 1 and "Lt" in pv.ops, "%s account is stale iff %s < current %s" % (crate.split("_")[0], lhs_field, "slot" if lhs_field != "last_interest_ts" else "timestamp"),
                  [(c[0], A._pvs(c[1]), A._pvs(c[2])) for c in cm], f.loc(f.raw["span"]))
 
+    # each adjusted oracle field is the adjustment of *that same* field (price<-price, ema conf<-ema conf, std_dev<-std_dev ...)
+    for f in ctor:
+        def _names(pl):
+            return [e["n"] for e in pl.get("p", []) if isinstance(e, dict) and "f" in e]
+        nadj = 0
+        badj = []
+        for bi, bb in enumerate(f.blocks):
+            for s_ in bb["s"]:
+                dpl, v_ = s_.get("d"), s_.get("v")
+                if not dpl or not v_ or not _names(dpl) or v_["r"] != "use":
+                    continue
+                dc_ = defining_call(f, v_["a"][0])
+                if not dc_:
+                    continue
+                t_ = dc_[1]
+                ci_ = f.dinfo(t_["res"]) if t_.get("res") is not None else None
+                if not ci_ or not ci_["name"].startswith("adjust"):
+                    continue
+                nadj += 1
+                dt = expr_tree(prog, f, {"c": dpl})
+                m_ = re.fullmatch(r"phi\((.*)\)", dt)
+                alts = split_call("x(" + m_.group(1).replace("|", ",") + ")")[1] if m_ else [dt]
+                raws = [a_ for a_ in (expr_tree(prog, f, x_) for x_ in t_["args"]) if a_.startswith("load_checked(")]
+                if len(raws) != 1 or raws[0] not in alts:
+                    badj.append("%s := %s(%s)" % (".".join(_names(dpl)), ci_["name"], (raws or ["?"])[0][-60:]))
+        ctx.inst("C20.R6", "oracle-adjust-same-field", nadj >= 18 and not badj, "every venue arm writes adjust(field) back into that same field of the loaded feed (spot price, EMA price, spot confidence, EMA confidence; value, std_dev)",
+                 badj or "%d adjusted stores" % nadj, f.loc(f.raw["span"]))
     # the oracle constructor hands each venue predicate the clock quantity it is defined on
     for f in ctor:
         want = {"kamino_mocks": "p3.slot", "drift_mocks": "p3.unix_timestamp"}
